@@ -82,6 +82,9 @@ func checkC19(c *Ctx) {
 	c.checkOverwrites("C19.record-overwrite", "TxFeeRecordKey", c.LiveReach(), "the fee-record setter stores every value it is given",
 		"the fee-record setter stores a record only depending on whether one already exists (test at %s): the reduction by the refund is dropped and the record reports the full fee paid instead of the fee kept")
 	c.checkKeyMakers("C19", 1)
+	// the recorded fees are external-unit values: the converter truncates, so what is scaled back up and
+	// distributed on execution never exceeds what was burnt in hub units
+	c.include("units", "C11", rulesIn("C11.convert-truncates"))
 	p, r := c.P, c.R
 	reach := c.ConsensusReach()
 	r.Min("C19.clamp", 1)
@@ -201,8 +204,9 @@ func checkC19(c *Ctx) {
 
 		// pro-rata user refunds and commission payouts
 		convRe := `Keeper\.ConvertFromExternalValue\([^()]*field:SendToExternal\.Fee\.Amount\)`
-		userRe := regexp.MustCompile(`^NewCoin\([^,]*,Int\.Quo\(Int\.Mul\(local:` + regexp.QuoteMeta(L.Comment) + `\.Amount,(` + convRe + `)\),phi\(NewInt\(0\),(?:@,)?Int\.Add\(@,(` + convRe + `)\)(?:,@)?\)\)\)$`)
-		comRe := regexp.MustCompile(`^NewCoin\([^,]*,Int\.Quo\(Int\.Mul\(local:` + regexp.QuoteMeta(C.Comment) + `\.Amount,NewIntFromUint64\(field:ExternalSigner\.Power\)\),NewIntFromUint64\(phi\(0,\(@\+field:ExternalSigner\.Power\)\)\)\)\)$`)
+		// (matched against the canonical rendering: operands of commutative operations are sorted)
+		userRe := regexp.MustCompile(`^NewCoin\([^,]*,Int\.Quo\(Int\.Mul\((` + convRe + `),local:` + regexp.QuoteMeta(L.Comment) + `\.Amount\),phi\(NewInt\(0\),(?:@,)?Int\.Add\(@,(` + convRe + `)\)(?:,@)?\)\)\)$`)
+		comRe := regexp.MustCompile(`^NewCoin\([^,]*,Int\.Quo\(Int\.Mul\(NewIntFromUint64\(field:ExternalSigner\.Power\),local:` + regexp.QuoteMeta(C.Comment) + `\.Amount\),NewIntFromUint64\(phi\(0,\(@\+field:ExternalSigner\.Power\)\)\)\)\)$`)
 		nUser, nCom := 0, 0
 		ana.Calls(f, func(site ssa.CallInstruction, d ana.CalleeDesc) {
 			isInsert := false
@@ -228,7 +232,7 @@ func checkC19(c *Ctx) {
 				return
 			}
 			lr := p.Leaves(rcpt, ana.PVOpt{})
-			ex := p.Expr(amt, 1)
+			ex := ana.CanonExpr(p.Expr(amt, 1))
 			switch {
 			case lr.HasField("SendToExternal.RefundAddress"):
 				nUser++
@@ -437,10 +441,15 @@ func (c *Ctx) sameSelection(f *ssa.Function, refundSite ssa.Instruction, amt ssa
 		if d.Recv != "Int" || d.Name != "Add" || len(call.Call.Args) != 2 {
 			return
 		}
-		if ph, ok := call.Call.Args[0].(*ssa.Phi); ok {
+		// sum.Add(fee) or fee.Add(sum): the addition is commutative
+		for i := 0; i < 2; i++ {
+			ph, ok := call.Call.Args[i].(*ssa.Phi)
+			if !ok {
+				continue
+			}
 			for _, e := range ph.Edges {
 				if e == ssa.Value(call) {
-					l := p.Leaves(call.Call.Args[1], amountOpt)
+					l := p.Leaves(call.Call.Args[1-i], amountOpt)
 					if l.HasField("SendToExternal.Fee.Amount") && l.HasOp("Keeper.ConvertFromExternalValue") {
 						addCall = call
 					}
